@@ -249,6 +249,60 @@ def main(ck):
                                "impl_out": {k: o.get(k) for k in ("exit", "race", "fatal", "report")},
                                "clause": "no crash / no data race (well_locked_race_free instantiated to the regenerated table)"})
 
+    # ---------------------------------------------------------------- (iv) concurrent AUTOLOAD through GetOrLoad*/LoadPkg
+    # Sequentially every one of these calls succeeds (the class path has the file).  GetOrLoad* are sequences of the
+    # atomic methods with an unlocked load in between; whether the whole call still behaves atomically is checked here.
+    AUTO = [{"name": "P", "kind": "c"}, {"name": "Q", "kind": "i"}, {"name": "S", "kind": "c"}]
+    want = {"App\\P": 1000, "App\\Q": 1001, "App\\S": 1002}
+    auto_cfgs = []
+    if ck.replay:
+        rp = json.load(open(ck.replay))
+        if rp.get("mode") == "autoload":
+            auto_cfgs = [rp["case"]]
+    else:
+        for (n, g) in ([(2, 2), (4, 4), (8, 16)] if ck.tier == "quick" else [(n, g) for n in (2, 4, 8, 16) for g in (1, 2, 4, 16)]):
+            ths = []
+            for _ in range(n):
+                t = [{"op": "goc", "name": "App\\P"}, {"op": "goi", "name": "App\\Q"}, {"op": "pkg", "name": "App\\S"},
+                     {"op": rng.choice(["goc", "pkg"]), "name": rng.choice(["App\\P", "App\\S"])}]
+                rng.shuffle(t)
+                ths.append(t)
+            auto_cfgs.append({"autoload": AUTO, "threads": ths, "gomaxprocs": g, "repeat": 25, "keepall": True})
+    nauto, nauto_bad = 0, 0
+    for binx, what in ((binary, "results"), (racebin, "race")):
+        if not auto_cfgs:
+            break
+        aouts, _, _ = run_lines([binx, "stress"], [json.dumps(c) for c in auto_cfgs])
+        for c, o in zip(auto_cfgs, aouts):
+            if "worker_death" in o:
+                death_violation(ck, "autoload", c, o["worker_death"])
+                continue
+            if what == "race":
+                if o.get("race") or o.get("fatal") or o.get("exit", 0) != 0:
+                    acc = [l for l in o.get("report", []) if l.startswith("ACCESS ")]
+                    vmfn = sorted(set(re.findall(r"runtime\.\(\*VM\)\.(\w+)", " ".join(acc))))
+                    pk = sorted(set(re.findall(r"origami/(\w+)\.", " ".join(acc))))
+                    if o.get("fatal"):
+                        key = "race:%s:%s" % (str(o.get("fatal")).replace(" ", "-"), "+".join(vmfn[:4]))
+                    elif vmfn:
+                        key = "race:data-race:" + "+".join(vmfn[:4])       # the registry itself raced: not the known class
+                    else:
+                        key = "autoload-race:data-race:" + "+".join(pk[:3])
+                    ck.violation(key, {"mode": "autoload", "case": c, "impl_out": {k: o.get(k) for k in ("exit", "race", "fatal", "report")},
+                                       "clause": "no data race while several goroutines autoload the same classes"})
+                continue
+            for run in (o.get("alls") or [[]])[0] or []:
+                for ops, rs in zip(c["threads"], run):
+                    for op, r in zip(ops, rs):
+                        nauto += 1
+                        if r["r"] != 0 or r["d"] != want[op["name"]]:
+                            nauto_bad += 1
+                            ck.violation("autoload-race:not-found:" + op["op"],
+                                         {"mode": "autoload", "case": c, "impl_out": {"op": op, "result": r},
+                                          "clause": "a GetOrLoad*/LoadPkg call that succeeds in every sequential order failed under concurrency"})
+    ck.cov["autoload_calls"] = nauto
+    ck.cov["autoload_calls_failed"] = nauto_bad
+
     # recorded histories (stamps): small ones searched for a linearization, big ones checked for the consequences
     hist_small, hist_big = [], []
     if not ck.replay:
